@@ -68,6 +68,7 @@ class Cov(np.ndarray):
             return
 
         self._data = obj._data.copy()
+        self._orb_frame = obj._orb_frame
 
     def __reduce__(self):
         """For pickling: ndarray.__reduce__ does not carry the instance attributes"""
